@@ -25,3 +25,41 @@ pub fn run(args: &[&str]) -> String {
     }
     out.join(";")
 }
+
+/// kind `dumptab` — exhaustive behavioural extraction of the tables the translator otherwise reads from the source text
+/// (used when the source no longer has the shape the regular expressions expect):
+/// `E <Debug name> <code> <hex message>` for every standard error (code descending), `M <code> <mask>` runs of equal
+/// esr_mask over all i16 codes as `M <lo> <hi> <mask>`, `C <data sep> <header sep> <unit sep> <terminator>`.
+pub fn dump(_args: &[&str]) -> String {
+    use scpi::parser::response::Formatter;
+    let mut out = Vec::new();
+    let mut c: i32 = 32767;
+    while c >= -32768 {
+        if let Some(ec) = ErrorCode::get_error(c as i16) {
+            out.push(format!("E {:?} {} {}", ec, ec.get_code(), hex(ec.get_message())));
+        }
+        c -= 1;
+    }
+    // runs of equal mask, ascending
+    let mask = |c: i32| Error::custom(c as i16, b"x").esr_mask();
+    let mut lo: i32 = -32768;
+    while lo <= 32767 {
+        let m = mask(lo);
+        let mut hi = lo;
+        while hi < 32767 && mask(hi + 1) == m { hi += 1; }
+        out.push(format!("M {} {} {}", lo, hi, m));
+        lo = hi + 1;
+    }
+    // separators through the public Formatter interface
+    let mut v: Vec<u8> = Vec::new();
+    v.data_separator().unwrap(); v.header_separator().unwrap();
+    let (ds, hs) = (v[0], v[1]);
+    let mut w: Vec<u8> = Vec::new();
+    w.message_start().unwrap();
+    w.response_unit().unwrap().data(1u8).finish().unwrap();
+    w.response_unit().unwrap().data(2u8).finish().unwrap();
+    w.message_end().unwrap();
+    // "1;2\n"
+    out.push(format!("C {} {} {} {}", ds, hs, w[1], w[w.len() - 1]));
+    out.join("|")
+}
